@@ -390,6 +390,7 @@ impl Session {
         // processes the leading well-formed prefix of the stream.
         let mut cmd_iter = cmds.filter_map(Result::ok).peekable();
         let mut num_adrreq = 0;
+        let mut mask_rfu = false;
         while let Some(cmd) = cmd_iter.next() {
             match cmd {
                 DevStatusReq(..) => {
@@ -425,12 +426,17 @@ impl Session {
                     // commands.
                     num_adrreq += 1;
 
-                    // TODO: Validate that input is not RFU
-                    let _ = region.channel_mask_update(
-                        &mut channel_mask,
-                        payload.redundancy().channel_mask_control(),
-                        payload.channel_mask(),
-                    );
+                    // An RFU ChMaskCntl value anywhere in the block invalidates the mask.
+                    if region
+                        .channel_mask_update(
+                            &mut channel_mask,
+                            payload.redundancy().channel_mask_control(),
+                            payload.channel_mask(),
+                        )
+                        .is_none()
+                    {
+                        mask_rfu = true;
+                    }
 
                     // Check whether LinkADRReq commands continue...
                     if let Some(LinkADRReq(..)) = cmd_iter.peek() {
@@ -457,7 +463,7 @@ impl Session {
                         p => region.check_tx_power(p as u8),
                     };
 
-                    let cm_ack = region.channel_mask_validate(&channel_mask, dr);
+                    let cm_ack = !mask_rfu && region.channel_mask_validate(&channel_mask, dr);
                     if cm_ack && let (Some(dr), Some(pw)) = (dr, pw) {
                         // TODO: handle nbtrans
                         configuration.data_rate = dr;
@@ -473,6 +479,7 @@ impl Session {
                         self.uplink.add_mac_command(cmd);
                     }
                     num_adrreq = 0;
+                    mask_rfu = false;
                 }
                 LinkCheckAns(..) => {
                     /* TODO: Payload contents are not consumed/handled
